@@ -297,6 +297,10 @@ async fn run_case(case: &Value) -> Value {
                 }
                 Err(e) => return json!({"error": e}),
             }
+        } else if natural {
+            // natural mode is lenient: an entry that cannot start a handler now (4 in flight, not its turn) is skipped
+            trace.push(json!({"skip": true, "npubs": pubs.len()}));
+            continue;
         } else {
             legal = false;
             blocked_at = json!(i);
